@@ -298,4 +298,52 @@ def extend {F : Type} (select : F → Except String (Option Group))
       | .error e => .failed e rounds
       | .ok (font', pd') => extend select applyTk applyGk fetch fuel (rounds + 1) font' pd'
 
+/-! ## the loop of `src/bin/ift_extend.rs` with a server that may fail
+
+The statement skeleton of the binary's `loop { … }` is re-extracted from the source on every run by
+translate/c19_extend.py (Gen/C19Extend.lean) and compared with the constants below
+(Props/C19Extend.lean `extend_model_matches_source`). -/
+
+/-- `for uri in next_patches.uris() { if patch_data.contains_key(uri) { continue; } … read …
+patch_data.insert(uri, Pending(bytes)) }`: `none` = a fetch failed (the binary panics) -/
+def fetchMissingOpt (fetch : Uri → Option (List Nat)) : PatchData → List Uri → Option PatchData
+  | pd, [] => some pd
+  | pd, u :: us =>
+    match pdGet pd u with
+    | some _ => fetchMissingOpt fetch pd us
+    | none =>
+      match fetch u with
+      | none => none
+      | some data => fetchMissingOpt fetch (pd ++ [(u, .pending data)]) us
+
+/-- the loop: select (an `Err` ends the run); `if !has_uris() { break }`; fetch what has no status
+yet (a failed fetch ends the run); apply (an `Err` ends the run); the new font and the status map are
+carried into the next round -/
+def extendF {F : Type} (select : F → Except String (Option Group))
+    (applyTk : F → PatchInfo → List Nat → Except String F)
+    (applyGk : F → List (PatchInfo × List Nat) → Except String F)
+    (fetch : Uri → Option (List Nat)) : Nat → Nat → F → PatchData → RunResult F
+  | 0, _, font, pd => .outOfFuel font pd
+  | fuel + 1, rounds, font, pd =>
+    match select font with
+    | .error e => .failed e rounds
+    | .ok g =>
+      if !hasUris g then .done font pd rounds else
+      match fetchMissingOpt fetch pd (optUris g) with
+      | none => .failed "err:fetch-failed" rounds
+      | some pd1 =>
+        match applyNext g (applyTk font) (applyGk font) pd1 with
+        | .error e => .failed e rounds
+        | .ok (font', pd') => extendF select applyTk applyGk fetch fuel (rounds + 1) font' pd'
+
+/-- the steps of one iteration of `extendF`, in order (names as translate/c19_extend.py gives them) -/
+def extendSteps : List String :=
+  ["parse-font", "select", "exit-test", "uris", "status-lookup", "fetch", "status-insert-pending", "apply"]
+/-- the steps of `extendF` whose failure ends the run with an error -/
+def extendFailing : List String := ["parse-font", "select", "fetch", "apply"]
+/-- what `extendF` carries from one round to the next (`rounds`, the font, the status map) -/
+def extendCarried : List String := ["font_bytes", "it_count", "patch_data"]
+/-- one exit (`!has_uris`), one skip (`contains_key`), no early return, one status-map write, no `?` -/
+def extendControlFlow : List Nat := [1, 1, 0, 1, 0]
+
 end FontVerif.PatchGroup
